@@ -147,6 +147,8 @@ def c03(repo, col):
     SB.data_type_tables(repo, col)
     A.check_modules(repo, col, ["precomputed_io", "chunk_encoding", "_jpeg"])
     X.decoded_shape(repo, col)
+    S.read_config_independence(repo, col)
+    SP.cseg_layout(repo, col)
     col.floor("E-BOUND.validator", 6)
     col.floor("E-ORDER", 4)
     col.floor("E-SIB.tables", 4)
